@@ -161,6 +161,8 @@ def run(ctx):
                 res.violation("REJECT-WHOLE", MAT_FN, f"malformed={kind},bad-row-is-first={bad_row == 0}", f"matrix of side {size} with {'row ' + str(bad_row) + ' of length ' + str(size + delta) if kind == 'row' else 'side array of length ' + str(size + delta)}: {why}",
                               replay=f"from edgegraph.structure import *\nfrom edgegraph.builder.adjmatrix import load_adj_matrix\nvs = [Vertex() for _ in range({size})]\nm = [[1]*{size} for _ in range({size})]\n" + (f"m[{bad_row}] = [1]*{size + delta}\n" if kind == "row" else f"vs = vs[:{size + delta}] if {delta} < 0 else vs + [Vertex()]\n") + "try:\n    load_adj_matrix(m, vs)\nexcept ValueError: pass\nprint([v.universes for v in vs])")
     res.rule("BUILD-MATRIX", m)
+    from rules import structural
+    structural.validate_first(ctx, MAT_FN)
     common.vacuity(res, "BUILD-DICT", 200)
     common.vacuity(res, "BUILD-MATRIX", 40)
     res.analysed = common.analysed(ctx, [DICT_FN, MAT_FN, "edgegraph.builder.explicit.link_from_to"])
